@@ -5,6 +5,8 @@
               "left side only" group is the union of the semi/anti/mark groups
             * left-match tracking / drain role: needs_drain, needs_match_column (hash join) and the nested-loop join's
               finalize sites select the same set {Left, LeftSemi, LeftAnti, Full, LeftMark}
+  C06-FLAGS per-batch right-match flags: (a) hash join state Vec<bool>::resize(n,false) is dominated by clear() of the same vector;
+            (b) nested-loop join: MatchTracker::right_outer_result is followed by reset() on every path to a successful return
 Not decided: which pairs are produced, NULL-key semantics, chains longer than a batch."""
 from .framework import RuleResult
 
@@ -117,7 +119,7 @@ def run(ctx):
     role_fns = {f for f, _ in OUTPUT_ROLE + DRAIN_ROLE} | {JT + "::output_refs"}
     other = sum(len(v) for k, v in by_fn.items() if k not in role_fns)
     r.notes.append(f"{other} further JoinType case analyses are extracted but not in a role table (information only)")
-    return [r]
+    return [r, rule_flags(facts)]
 
 
 CLAIM = {
@@ -127,3 +129,75 @@ CLAIM = {
     "note": "trusted: rustc HIR + typeck resolution of patterns; the role table in rules/c06.py (sites confirmed by reading)",
     "technique": "static analysis: sibling agreement over HIR match tables (rustc_private driver)",
 }
+
+
+def rule_flags(facts):
+    """per-batch match flags. A right (probe-side) batch gets one flag per row; rows whose flag is still false after the batch
+    was fully probed are emitted NULL-padded. The flag vectors live in partition state and are reused for the next batch, so
+      (a) hash join: a `Vec<bool>::resize(n, false)` of a join state field (which keeps old elements) is dominated by a
+          `clear()` of the same vector in the same function;
+      (b) nested-loop join: every path from MatchTracker::right_outer_result (flush for this batch) to a successful return
+          passes MatchTracker::reset on the same tracker."""
+    from .mir import Fn, op_const
+    r = RuleResult("C06-FLAGS", "per-batch right-match flags are cleared before they are reused for the next batch", floor=2)
+
+    def place_key(fn, op, at):
+        o = fn.origin(op, at=at, through_calls=("DerefMut>::deref_mut", "Deref>::deref"))
+        proj = o[2] if len(o) > 2 and isinstance(o[2], list) else []
+        return (o[0], o[1] if o[0] in ("arg", "local") else None, tuple(pp[1] for pp in proj if isinstance(pp, list) and pp[0] == "f"))
+
+    n_a = 0
+    for rec in facts.all_fns(["glaredb_core"]):
+        if "operators::hash_join" not in rec["id"] and "operators::nested_loop_join" not in rec["id"]:
+            continue
+        s = str(rec["bbs"])
+        if "resize" in s:
+            fn = Fn(rec)
+            for c in fn.calls():
+                if not c.name.endswith("Vec::<T, A>::resize"):
+                    continue
+                ga = c.callee.get("res_args") or c.callee.get("args") or []
+                if not ga or ga[0] != "bool" or len(c.args) < 3:
+                    continue
+                k = op_const(c.args[2])
+                if not k or k.get("v") not in (0, False, "false"):
+                    continue
+                key = place_key(fn, c.args[0], c.bb)
+                if not key[2]:
+                    continue          # a fresh local vector
+                if fn.id.endswith("MatchTracker::ensure_initialized"):
+                    # documented accumulate-across-calls API; its obligation is clause (b) at the call sites
+                    r.exempt(fn.id, "idempotent initialisation that deliberately keeps matches of the current right batch; the batch switch is checked at "
+                                    "the callers (clause b: right_outer_result → reset)")
+                    continue
+                n_a += 1
+                r.functions.add(fn.id)
+                r.call_sites += 1
+                clears = [x for x in fn.calls() if (x.name.endswith("Vec::<T, A>::clear") or x.name.endswith("]>::fill")) and
+                          fn.dominates(x.bb, c.bb) and place_key(fn, x.args[0], x.bb) == key]
+                ok = bool(clears)
+                r.inst({"clause": "a", "fn": fn.id, "vector": ".".join(key[2]), "line": c.line, "cleared_first": ok}, ok)
+                if not ok:
+                    r.violate(fn.id, "resize-without-clear:" + key[2][-1], f"`{'.'.join(key[2])}.resize(n, false)` keeps the flags of the previous batch "
+                              "(resize only initialises new slots) and no clear() precedes it: after a fully matched batch, unmatched rows of the next "
+                              "batch are treated as matched and never emitted", rec["file"], c.line)
+        if "right_outer_result" in s:
+            fn = Fn(rec)
+            flushes = [c for c in fn.calls() if c.name.endswith("MatchTracker::right_outer_result")]
+            resets = [c for c in fn.calls() if c.name.endswith("MatchTracker::reset")]
+            err = {c.bb for c in fn.calls() if c.decl.endswith("FromResidual::from_residual")}
+            for c in flushes:
+                r.functions.add(fn.id)
+                r.call_sites += 1
+                key = place_key(fn, c.args[0], c.bb)
+                rb = {x.bb for x in resets if place_key(fn, x.args[0], x.bb) == key}
+                esc = (fn.reachable_from(c.target, avoid=rb | err) & set(fn.exits)) if c.target is not None else set()
+                ok = bool(rb) and not esc
+                r.inst({"clause": "b", "fn": fn.id, "tracker": ".".join(key[2]), "line": c.line, "reset_on_all_paths": ok}, ok)
+                if not ok:
+                    r.violate(fn.id, "flush-without-reset:" + (key[2][-1] if key[2] else "tracker"), "after the unmatched right rows of this batch are flushed "
+                              "the tracker is not reset on every path to a successful return: the next right batch inherits this batch's match flags",
+                              rec["file"], c.line)
+    if n_a == 0:
+        r.missing_anchor("Vec<bool>::resize(n, false) of a join state field (hash join right_matches)")
+    return r
